@@ -213,6 +213,34 @@ def ending_probe(job):
     return out
 
 
+def many_constants_text(job):
+    """programs with n distinct repeated int / byte constants, assembled: the text must stay legal (block indices are uint8 immediates)"""
+    kind, n, version = job
+    from .e2e import with_big_stack
+
+    def work(_):
+        from vf.core import use_repo
+        use_repo()
+        import pyteal as pt
+        from spec import tealcheck
+        out = {"job": list(job), "problem": None}
+        try:
+            if kind == "ints":
+                body = [pt.Pop(pt.Int(1000 + i) + pt.Int(1000 + i)) for i in range(n)]
+            else:
+                body = [pt.Pop(pt.Concat(pt.Bytes(bytes([i % 256, i // 256, 9])), pt.Bytes(bytes([i % 256, i // 256, 9])))) for i in range(n)]
+            teal = pt.compileTeal(pt.Seq(*body, pt.Approve()), pt.Mode.Application, version=version, assembleConstants=True)
+        except (pt.TealInputError, pt.TealInternalError, pt.TealCompileError):
+            return out
+        except RecursionError:
+            return out
+        pr = tealcheck.validate(teal, version, "Application", stack=False)
+        if pr:
+            out["problem"] = f"{n} repeated {kind} constants at v{version} with assembleConstants: {pr[:2]}"
+        return out
+    return with_big_stack(work, None)
+
+
 def ending_jobs(tier):
     versions = (4, 6, 10) if tier == "quick" else (4, 5, 6, 7, 8, 9, 10)
     return [(e, p, v) for e in ENDINGS for p in ("main", "sub-then-other", "other-then-sub") for v in versions]
@@ -268,6 +296,14 @@ def run(report: Report, tier, seed):
     report.bounded.append(Bounded(function="immediate-range / version probes", contract="rejected with a PyTeal error or emitted legally",
                                   bound=f"{len(IMM_TEMPLATES)} constructs with numeric immediates x boundary values {IMM_VALUES} (and a run-time operand where accepted) x versions; {len(VERSION_PROBES)} version probes",
                                   cases=len(PROBES), distinct_nontrivial=sum(1 for _, p, _t in pr if p != "rejected"), failures=len(pbad)))
+    mj = [(k, n, v) for k in ("ints", "bytes") for n in (255, 256, 257, 258, 300) for v in (3, 10)]
+    with ProcessPoolExecutor(max_workers=16) as ex:
+        mr = list(ex.map(many_constants_text, mj))
+    mbad = [r for r in mr if r["problem"]]
+    report.bounded.append(Bounded(function="compileTeal(assembleConstants=True) with 255..300 distinct repeated constants", contract="the emitted text is legal (constant-block indices fit a byte)",
+                                  bound=f"{len(mj)} (kind, count, version) settings", cases=len(mr), distinct_nontrivial=len(mr), failures=len(mbad)))
+    for b in mbad[:2]:
+        report.violation(Violation(key=f"many-constants:{b['job'][0]}", what=b["problem"][:400], replay={"kind": "many-constants", "job": b["job"]}, confirmed_native=True))
     ej = ending_jobs(tier)
     with ProcessPoolExecutor(max_workers=16) as ex:
         er = list(ex.map(ending_probe, ej, chunksize=8))
@@ -305,6 +341,10 @@ def replay(data):
         out = _probe(job)
         print(out[:2])
         return 1 if (out[1] not in ("rejected",) and out[1]) else 0
+    if r.get("kind") == "many-constants":
+        out = many_constants_text(tuple(r["job"]))
+        print(out["problem"])
+        return 1 if out["problem"] else 0
     if r.get("kind") == "ending":
         out = ending_probe(tuple(r["job"]))
         print(out["problem"])
